@@ -399,6 +399,7 @@ type ReplayDoc struct {
 	TestOutput string            `json:"test_output,omitempty"`
 	SolverOut  string            `json:"solver_output,omitempty"`
 	Repo       string            `json:"repo,omitempty"`
+	Path       []string          `json:"path,omitempty"` // branch decisions of the failing path (block index: then/else)
 }
 
 // runReplayTest injects the test into the package with -overlay and runs it.
